@@ -113,6 +113,10 @@ func c09Workload[T any](rep *Report, codec Codec[T], api string, rng *rand.Rand,
 			rem, callee = rb, p.A
 		}
 		a, b, c, d, e, f, g, h, i, j, k, l := randAll(rng, it < 8)
+		withErr := it%4 == 3
+		if withErr {
+			b = "ERR:" + b // the handler returns its value TOGETHER with an error carrying this text
+		}
 		sent := All{a, b, c, d, e, f, g, h, i, j, k, l}
 		rep.Evaluations++
 		rep.Distinct++
@@ -122,9 +126,17 @@ func c09Workload[T any](rep *Report, codec Codec[T], api string, rng *rand.Rand,
 		if it < 2 {
 			rep.sample(cd)
 		}
-		if !r.ok || r.err != nil {
+		if withErr && r.ok && r.err != nil && hasNonBlank(b) {
+			if r.err.Error() != b {
+				rep.addViolation("property", "C09:"+api+":value+error", fmt.Sprintf("handler returned its value with error %q, the caller got error %q", b, r.err), cd)
+				continue
+			}
+		} else if !r.ok || r.err != nil {
 			rep.addViolation("property", "C09:"+api+":call", fmt.Sprintf("EchoAll failed: ok=%v err=%v", r.ok, r.err), cd)
 			return
+		} else if withErr {
+			rep.addViolation("property", "C09:"+api+":value+error", fmt.Sprintf("handler returned its value with error %q, the caller got a nil error", b), cd)
+			continue
 		}
 		// what the handler must have seen: each argument after one round-trip into its declared type
 		var seenWant All
